@@ -372,8 +372,15 @@ func (e *Exec) run() {
 		}
 	}
 	e.rpParams, e.rpNames, e.rpResults, e.rpExitE = []Value{}, nil, nil, nil
-	for _, p := range fn.Params {
-		addParam(p, p.Name())
+	for i, p := range fn.Params {
+		name := p.Name()
+		if e.Con != nil && len(e.Con.ParamNames) > 0 && len(e.Con.ParamNames) == len(fn.Params) {
+			name = e.Con.ParamNames[i]
+		}
+		addParam(p, name)
+		if name != p.Name() {
+			vars[p.Name()] = e.vals[p] // the source's own name stays usable as well
+		}
 		e.rpParams = append(e.rpParams, e.vals[p])
 		e.rpNames = append(e.rpNames, p.Name())
 	}
